@@ -462,7 +462,7 @@ func runRange(c *Ctx) {
 	type geo struct{ s, e string }
 	geos := []geo{{"10.0.0.1", "10.0.0.2"}, {"10.0.0.1", "10.0.0.3"}, {"10.1.0.0", "10.1.0.62"}, {"10.1.0.0", "10.1.0.63"},
 		{"10.1.0.0", "10.1.0.64"}, {"255.255.255.250", "255.255.255.255"}, {"192.168.7.254", "192.168.8.4"}}
-	leases := []string{"1h", "30s", "90m", "2s", "24h", "1500ms"}
+	leases := []string{"1h", "30s", "90m", "2s", "24h", "1500ms", "175200h" /* 20 years: expiries beyond 2038 */}
 	crashMode := c.Prop == "C03"
 	mts := []dhcpv4.MessageType{dhcpv4.MessageTypeDiscover, dhcpv4.MessageTypeRequest}
 
